@@ -208,7 +208,10 @@ def run(chk):
     helpers |= {n.attr for f_ in sorted(family_files) for n in ast.walk(repo.tree[f_]) if isinstance(n, ast.Attribute) and isinstance(n.value, ast.Attribute)}
     helpers |= {m.node.name for m in family_methods
                 if any(ast.unparse(d).split(".")[-1] in ("property", "staticmethod", "classmethod", "cached_property", "setter") for d in m.node.decorator_list)}
-    callbacks = [m for m in family_methods if m.node.name not in helpers and not m.node.name.startswith("_")]
+    # lark hands a callback the children of the matched rule: a method that takes nothing besides `self` cannot be one (a public
+    # helper kept for callers of the class, whoever calls it)
+    takes_children = lambda a: bool(a.posonlyargs[1:] or a.args[1:] or a.vararg) if not a.posonlyargs else bool(a.posonlyargs[1:] or a.args or a.vararg)  # noqa: E731
+    callbacks = [m for m in family_methods if m.node.name not in helpers and not m.node.name.startswith("_") and takes_children(m.node.args)]
     callbacks = list({m.node.name: m for m in callbacks}.values())
     for m in callbacks:
         chk.ob("C02.G.callback-names-a-rule", f"{m.node.name}", m.node.name in rule_names, file=FILE, func=m.qual, line=m.node.lineno,
